@@ -10,7 +10,7 @@ ASSUMPTIONS = ["rename(2) is atomic; a crash between system calls leaves what th
 def ob(name, defs, **kw):
     o = dict(name=name, src='h_chkpnt.c', defs=defs + ['ECHSE_VERIF_FDBUF=128U'], units=['src/evical.c', 'src/task.c'], incl=['src/echsd.c'], replay_units='all', replay_extra_units=['src/logger.c'],
              unwind=6, unwindset={'snprintf.*': 9, 'openat.*': 17, 'fdflush.*': 3, 'memcpy.*': 130, 'strlen.*': 40, 'chkpnt1.*': 6},
-             solver='cadical', timeout=1500, mem_gb=24, object_bits=12, checks=['--bounds-check'], replace_calls={'memcpy': 'c06_memcpy'},
+             solver='minisat', slice_formula=True, timeout=1500, mem_gb=24, object_bits=12, checks=['--bounds-check'], replace_calls={'memcpy': 'c06_memcpy'},
              allow_nobody=['echs_log', 'echs_errlog', 'epoch_to_echs_instant', 'echs_evstrm_seria'],
              enc=['chkpnt', 'chkpnt1', 'echs_icalify_init', 'echs_task_icalify', 'send_task', 'send_ical_hdr', 'send_ical_ftr', 'echs_icalify_fini', 'fdprintf', 'fdwrite', 'fdflush'],
              sym='which system call fails and how, number of tasks, their owners, the dirty user', bounds='<= 2 tasks, fault among the first 12 system calls',
@@ -24,7 +24,7 @@ def cfg(n, a, b, vsn=8, fmax=12, **kw):
               bounds='%d task(s) owned by users %d/%d, user 1 dirty; every formatted field %d bytes; the failing system call is any of the first %d (or none), failing outright or short' % (n, a, b, vsn, fmax), **kw)
 OBLIGATIONS = [cfg(*c) for c in CFGS] + [cfg(*c, vsn=40, fmax=30, tiers=('thorough',), timeout=3000) for c in CFGS] + [
     dict(name='dirty_users_all_checkpointed', src='h_dirty.c', defs=['NADD=18'], units=[], incl=['src/echsd.c'], replay_units='all', replay_extra_units=['src/logger.c'],
-         unwind=20, unwindset={'sym_load.*': 20}, solver='cadical', timeout=900, mem_gb=12, object_bits=12, checks=['--bounds-check'],
+         unwind=20, unwindset={'sym_load.*': 20}, solver='minisat', slice_formula=True, timeout=900, mem_gb=12, object_bits=12, checks=['--bounds-check'],
          replace_calls={'chkpnt1': 'rec_chkpnt1', 'chkpnta': 'rec_chkpnta', 'ndtr_t_NEDTRIE_INSERT': 'rec_trie_insert'},
          allow_nobody=['echs_log', 'echs_errlog', 'snprintf'], enc=['add_chkpnt', 'chkpnt'], sym='how many change notes (0..18) and whose (4 users)',
          bounds='up to 18 notes between two checkpoints (the dirty list holds 16)', outside='the file handling of chkpnt1/chkpnta (other obligations / outside)',
